@@ -147,7 +147,7 @@ Section PR.
     destruct (match search PShortAnte _ with Some _ => _ | None => Ok tt end) as [u|ex];
       cbn [bind]; [|discriminate].
     destruct (glookup g_page (t_groups t)) as [prefix|]; [|discriminate].
-    destruct (epin words i (ze t) prefix) as [[[pin se] par]|ex]; cbn [bind]; [|discriminate].
+    destruct (epin words i (ze t) _) as [[[pin se] par]|ex]; cbn [bind]; [|discriminate].
     intros [= <-]. reflexivity.
   Qed.
 
